@@ -855,11 +855,9 @@ func (c *Conn) dispatch(fr *FrameHeader) bool {
 		return false
 	}
 
-	// Released on the way out even if readStream panics: leaving the Ctx locked
-	// would wedge the RoundTrip that is waiting to take it back.
-	defer r.release()
-
-	err := c.readStream(fr, r.Response)
+	// The Ctx is given back before finish: finish closes a streamed request
+	// body that is still pending, which takes the Ctx again.
+	err := c.readStreamOwned(fr, r)
 	if err == nil {
 		// END_STREAM only exists on DATA and HEADERS; on any other frame type
 		// the bit is undefined and must be ignored (RFC 7540 4.1).
@@ -913,6 +911,15 @@ func (c *Conn) failAbove(last uint32) {
 			c.finish(r, id, ErrConnectionClosed)
 		}
 	}
+}
+
+// readStreamOwned runs readStream on a Ctx the caller has acquired and
+// releases it on the way out, even if readStream panics: leaving the Ctx locked
+// would wedge the RoundTrip that is waiting to take it back.
+func (c *Conn) readStreamOwned(fr *FrameHeader, r *Ctx) error {
+	defer r.release()
+
+	return c.readStream(fr, r.Response)
 }
 
 func (c *Conn) writeRequest(ctx *Ctx) error {
@@ -1058,6 +1065,10 @@ func (c *Conn) writeRequest(ctx *Ctx) error {
 		c.setLastErr(err)
 		// if we had any error, remove it from the reqQueued.
 		c.dequeueReq(id)
+
+		// deletePending closes a streamed body, which takes the Ctx, and the
+		// lock is not reentrant.
+		release()
 		c.deletePending(id)
 
 		return err
